@@ -3,7 +3,7 @@
 From Coq Require Import ZArith List Bool Permutation.
 From Coq Require Import Sorted.
 From Scenic Require Import C02.Checker C02.CheckerProofs C15.Determinism C15.DeterminismProofs
-  C15.SpecOrder C15.SpecOrderProofs.
+  C15.SpecOrder C15.SpecOrderProofs C15.RegionSampler C15.RegionSamplerProofs.
 Import ListNotations.
 
 (* randomness consumed while checking does not perturb the user-visible stream *)
@@ -155,3 +155,66 @@ Proof.
   repeat split; try (vm_compute; reflexivity).
   intro l. apply Permutation_sym, Permutation_rev.
 Qed.
+
+(* ---------------------------------------------------------------------------------------------------------
+   Round 3: region samplers as functions of the two seeded global streams (Python's `random`, NumPy's global
+   generator); [entropy] = what the OS hands to a generator created without a seed, different in every process *)
+
+(* a sampler whose draws all come from the seeded streams returns the same value and leaves the same machine
+   state whatever the process's entropy *)
+Theorem C15_region_sampler_indep_of_entropy : forall e e' s m,
+  seeded s = true -> rsample e s m = rsample e' s m.
+Proof. exact sample_seeded_indep. Qed.
+Print Assumptions C15_region_sampler_indep_of_entropy.
+
+(* whole scenes (any number of region samplers, any acceptance test, any iteration bound): values, both stream
+   cursors and the number of iterations coincide in all processes *)
+Theorem C15_region_scene_indep_of_entropy : forall e e' n ss ok m,
+  forallb seeded ss = true -> gen_scene e n ss ok m = gen_scene e' n ss ok m.
+Proof. exact gen_scene_seeded_indep. Qed.
+Print Assumptions C15_region_scene_indep_of_entropy.
+
+(* VoxelRegion.uniformPointInner as it is (index from Python's stream, offset from NumPy's stream) *)
+Theorem C15_voxel_sampler_deterministic : forall pts scale e e' m,
+  rsample e (voxel pts scale) m = rsample e' (voxel pts scale) m.
+Proof. exact voxel_deterministic. Qed.
+Print Assumptions C15_voxel_sampler_deterministic.
+
+(* drawing from the two streams in the other order gives the same two values and the same state *)
+Theorem C15_draws_across_streams_commute : forall e m,
+  let '(u, m1) := sstep e m NpDraw in let '(i, m2) := sstep e m1 PyDraw in
+  let '(i', m1') := sstep e m PyDraw in let '(u', m2') := sstep e m1' NpDraw in
+  u = u' /\ i = i' /\ m2 = m2'.
+Proof. exact draws_across_streams_commute. Qed.
+Print Assumptions C15_draws_across_streams_commute.
+
+(* seeded regression C15-3 (offset from numpy.random.default_rng()): every rsample still lies in the voxel chosen
+   by the seeded stream, for every entropy ... *)
+Theorem C15_voxel_entropy_stays_in_voxel : forall pts scale e m, (0 < scale)%Z ->
+  (voxel_base pts (s_py (m_st m)) <= fst (rsample e (voxel_bug pts scale) m) < voxel_base pts (s_py (m_st m)) + scale)%Z.
+Proof. exact voxel_bug_in_voxel. Qed.
+Print Assumptions C15_voxel_entropy_stays_in_voxel.
+
+(* ... yet the position differs between two processes with the same seeds, while both seeded streams end in the
+   same state (so a comparison of RNG states alone cannot see it: positions must be compared bit for bit) *)
+Theorem C15_voxel_entropy_refuted : exists pts scale m e e',
+  (0 < scale)%Z /\ fst (rsample e (voxel_bug pts scale) m) <> fst (rsample e' (voxel_bug pts scale) m)
+  /\ snd (rsample e (voxel_bug pts scale) m) = snd (rsample e' (voxel_bug pts scale) m).
+Proof. exact voxel_entropy_refuted. Qed.
+Print Assumptions C15_voxel_entropy_refuted.
+
+Theorem C15_region_scene_entropy_refuted : exists ss ok n m e e',
+  fst (fst (gen_scene e n ss ok m)) <> fst (fst (gen_scene e' n ss ok m))
+  /\ m_st (snd (fst (gen_scene e n ss ok m))) = m_st (snd (fst (gen_scene e' n ss ok m))).
+Proof. exact gen_scene_entropy_refuted. Qed.
+Print Assumptions C15_region_scene_entropy_refuted.
+
+(* non-vacuity: seeded samplers exist (the voxel sampler, a scene of two of them) and compute something; the
+   regressed sampler is not seeded; a rejection loop that rejects the first candidate uses two iterations *)
+Example C15_examples_region :
+  seeded (voxel [10; 20; 30]%Z 8%Z) = true
+  /\ forallb seeded [voxel [10; 20; 30]%Z 8%Z; voxel [1; 2]%Z 4%Z] = true
+  /\ seeded (voxel_bug [10; 20; 30]%Z 8%Z) = false
+  /\ fst (rsample (fun _ => 0%Z) (voxel [10; 20; 30]%Z 8%Z) (mkM (mkS (mkRng Z.of_nat 1) (mkRng Z.of_nat 5)) 0)) = 25%Z
+  /\ snd (gen_scene (fun _ => 0%Z) 5 [voxel [10; 20; 30]%Z 8%Z] (fun vs => match vs with [v] => Z.leb 20 v | _ => false end) m0) = 2.
+Proof. repeat split; vm_compute; reflexivity. Qed.
